@@ -252,7 +252,7 @@ impl Boudot2000RangeProof {
         while boolean {
             let w = rand_int(
                 Integer::from(0),
-                (Integer::from(2).pow(T) * Integer::from(2).pow(t + l)) * b - Integer::from(1),
+                Integer::from(2).pow(t + l) * b - Integer::from(1),
             );
             let nu = rand_int(
                 -(Integer::from(2).pow(T) * Integer::from(2).pow(t + l + s)) * n + Integer::from(1),
@@ -271,11 +271,7 @@ impl Boudot2000RangeProof {
             D_1 = w + (x * &c);
             D_2 = nu + (r * &c);
 
-            if c * b <= D_1
-                && D_1
-                    <= Integer::from(2).pow(T)
-                        * (Integer::from(2).pow(t + l) * b - Integer::from(1))
-            {
+            if c * b <= D_1 && D_1 <= Integer::from(2).pow(t + l) * b - Integer::from(1) {
                 boolean = false;
             }
         }
@@ -294,7 +290,6 @@ impl Boudot2000RangeProof {
         t: u32,
         l: u32,
         b: &Integer,
-        T: u32,
     ) -> bool
     where
         H: Digest,
@@ -312,8 +307,7 @@ impl Boudot2000RangeProof {
         let output = Integer::from_digits(hash.as_slice(), Order::MsfBe);
 
         if &(c * Integer::from(b)) <= D_1
-            && D_1
-                <= &(Integer::from(2).pow(T) * (Integer::from(2).pow(t + l) * b - Integer::from(1)))
+            && D_1 <= &(Integer::from(2).pow(t + l) * b - Integer::from(1))
             && C == &output
         {
             return true;
@@ -346,13 +340,13 @@ impl Boudot2000RangeProof {
         #       (i.e., NON-Interactive Sigma protocol of Two secrets - nisp2sec).
         #       We SKIP such Sigma protocol, assuming that this PoK was already done before the range proof. */
 
-        let aa = Integer::from(2).pow(T) * Integer::from(a)
-            - Integer::from(2).pow(l + t + rug::ops::DivRounding::div_floor(T, 2) + 1)
-                * Integer::from(Integer::from(b - a).sqrt_ref());
+        let aa = Integer::from(2).pow(T) * Integer::from(a);
 
-        let bb = Integer::from(2).pow(T) * Integer::from(b)
-            + Integer::from(2).pow(l + t + rug::ops::DivRounding::div_floor(T, 2) + 1)
-                * Integer::from(Integer::from(b - a).sqrt_ref());
+        let bb = Integer::from(2).pow(T) * Integer::from(b);
+
+        // bound of the remainders x_a_2, x_b_2 (at most twice the root of the scaled interval width):
+        // the larger-interval proofs then leave a tolerance 2^(t+l) * b_2 < 2^T
+        let b_2 = Integer::from(2) * (Integer::from(2).pow(T) * Integer::from(b - a)).sqrt();
 
         let x_a = &x - aa;
 
@@ -418,9 +412,9 @@ impl Boudot2000RangeProof {
         let proof_of_square_b =
             Self::proof_of_square::<H>(&x_b_1, &r_b_1, g, h, &E_b_1, l, t, b, s, s1, s2, n);
         let proof_large_i_a =
-            Self::proof_large_interval_specific::<H>(&x_a_2, &r_a_2, g, h, t, l, b, s, n, T);
+            Self::proof_large_interval_specific::<H>(&x_a_2, &r_a_2, g, h, t, l, &b_2, s, n, T);
         let proof_large_i_b =
-            Self::proof_large_interval_specific::<H>(&x_b_2, &r_b_2, g, h, t, l, b, s, n, T);
+            Self::proof_large_interval_specific::<H>(&x_b_2, &r_b_2, g, h, t, l, &b_2, s, n, T);
 
         // proof_wt = {
         //     'E_a_1': int(E_a_1), 'E_a_2': int(E_a_2), 'E_b_1': int(E_b_1), 'E_b_2': int(E_b_2),
@@ -456,12 +450,9 @@ impl Boudot2000RangeProof {
     where
         H: Digest,
     {
-        let aa = Integer::from(2).pow(T) * Integer::from(a)
-            - Integer::from(2).pow(l + t + rug::ops::DivRounding::div_floor(T, 2) + 1)
-                * Integer::from(Integer::from(b - a).sqrt_ref());
-        let bb = Integer::from(2).pow(T) * Integer::from(b)
-            + Integer::from(2).pow(l + t + rug::ops::DivRounding::div_floor(T, 2) + 1)
-                * Integer::from(Integer::from(b - a).sqrt_ref());
+        let aa = Integer::from(2).pow(T) * Integer::from(a);
+        let bb = Integer::from(2).pow(T) * Integer::from(b);
+        let b_2 = Integer::from(2) * (Integer::from(2).pow(T) * Integer::from(b - a)).sqrt();
         let E_a = divm(E, &Integer::from(g.pow_mod_ref(&aa, n).unwrap()), n);
         let E_b = divm(&Integer::from(g.pow_mod_ref(&bb, n).unwrap()), E, n);
         // NOTE: E_a and E_b must be recomputed during the verification,
@@ -497,8 +488,7 @@ impl Boudot2000RangeProof {
                 n,
                 t,
                 l,
-                b,
-                T,
+                &b_2,
             ) && Self::verify_large_interval_specific::<H>(
                 proof_large_i_b,
                 E_b_2,
@@ -507,8 +497,7 @@ impl Boudot2000RangeProof {
                 n,
                 t,
                 l,
-                b,
-                T,
+                &b_2,
             );
             return b_s && b_li;
         }
